@@ -116,7 +116,7 @@ impl Property for C02 {
     }
     fn cases(&self, tier: Tier) -> u64 {
         match tier {
-            Tier::Quick => 120_000,
+            Tier::Quick => 90_000,
             Tier::Thorough => 1_500_000,
         }
     }
